@@ -401,6 +401,38 @@ theorem disable_on_any_stack_is_projection (S : List String) (c : Cli) (allCodes
   rw [e]
   exact disable_is_projection S _ lines raw st h
 
+/-! ## Several modules in one run -/
+
+/-- **modules_independent (full strength).** In a run over several modules each module's result is
+the result of checking that module alone with the enabled-ness of *its* module path — whatever was
+checked before it and after it, in every order. (Immediate in the model, which carries no state
+from one module to the next; the `layers` stream ties the implementation to it by checking several
+modules in one run in every order, and the obligation `options_state_registered` pins the mutable
+state and caches `options.py` has.) -/
+theorem modules_independent (en : List String → String → Bool) (pre post : List Module) (m : Module) :
+    runModules en (pre ++ m :: post) =
+      runModules en pre ++ check (en m.path) m.lines m.raw :: runModules en post := by
+  simp [runModules]
+
+/-- Order form: permuting the modules permutes the results. -/
+theorem modules_order_irrelevant (en : List String → String → Bool) (ms ms' : List Module)
+    (h : ms.Perm ms') : (runModules en ms).Perm (runModules en ms') :=
+  h.map _
+
+/-- With per-module overrides: under one stack, a module to which an override applies and a module
+to which it does not are each checked with their own documented precedence. -/
+theorem modules_stack_projection (c : Cli) (allCodes : List String) (files : List CfgFile)
+    (hf : ∀ f ∈ files, f.wf = true) (dflt : String → Bool) (ms : List Module) :
+    runModules (fun path => enabledStack (c.settings allCodes) files path dflt) ms =
+      ms.map fun m => check (fun code => specEnabled (c.value allCodes code) files m.path dflt code) m.lines m.raw := by
+  unfold runModules
+  apply List.map_congr_left
+  intro m _
+  congr 1
+  funext code
+  show enabledStack (c.settings allCodes) files m.path dflt code = _
+  rw [enabledStack_spec _ files hf, settings_value]
+
 /-! ## Non-vacuity: the hypotheses are met by non-trivial inputs -/
 
 def exLines : List Line :=
